@@ -66,7 +66,8 @@ def build(tr, H, expanded=False):
         name, ver = tr["name"].split("@")
         if name in ("e", "g"):
             return [H.HTMLDependency(name, ver, source={"subdir": "lib src"}, script=[{"src": "a b.js"}, {"src": "c.js", "defer": ""}],
-                                     stylesheet={"href": "s t.css"}, meta={"name": "m", "content": "c"}, head=H.tags.title("h"))]
+                                     stylesheet={"href": "s t.css"}, meta={"name": "m", "content": "c"}, head=H.tags.title("h"),
+                                     all_files=(name == "g"))]
         if name == "n":
             # no source location: nothing to prefix, but item paths still get URL-quoted on the way out
             return [H.HTMLDependency(name, ver, script=[{"src": "my widget.js"}], stylesheet={"href": "a%b é.css"})]
@@ -496,6 +497,10 @@ def eq_record(g, H):
             kind = t["v"]
             if kind == "userlist":
                 return collections.UserList(["a", H.tags.span("b")])
+            if kind == "list":
+                return ["a", H.tags.span("b")]
+            if kind == "tuple":
+                return ("a", H.tags.span("b"))
             if kind == "namespace":
                 d = H.HTMLDependency("d", "1.0")
                 return types.SimpleNamespace(**vars(d))
@@ -555,7 +560,7 @@ def variants(rnd, t):
     elif choice == "kind_list":
         b = {"f": "L", "kids": b["kids"]}
     elif choice == "foreign":
-        b = {"f": "X", "v": rnd.choice(["userlist", "namespace", "str", "dict", "object"])}
+        b = {"f": "X", "v": rnd.choice(["userlist", "list", "list", "tuple", "namespace", "str", "dict", "object"])}
         if rnd.random() < 0.5:
             a = rnd.choice([{"f": "L", "kids": [{"f": "S", "v": "a"}, {"f": "T", "name": "span", "ws": False, "attrs": [], "kids": [{"f": "S", "v": "b"}]}]},
                             {"f": "D", "name": "d@1.0", "v": ""}])
